@@ -293,7 +293,7 @@ func evalFault(r *ev.Run, key echx.KeyPair, f fault) {
 		keys = echx.Keys(key)
 	}
 	res := echx.Feed(f.stream, keys)
-	replay := map[string]any{"fault": f, "stream": echx.Hex(f.stream)}
+	replay := map[string]any{"fault": f, "stream": echx.Hex(f.stream), "keys": echx.KeysDoc(keys)}
 	k := f.Name
 	oc := ""
 	switch {
